@@ -135,11 +135,11 @@ func (m *Merger) mergeTables(colDiff *diff.ColDiff, mergeChan chan<- *Merge, err
 			counter[pkSum]++
 		}
 	}
-	// when a layer adds or removes (renames) columns, a row whose bytes equal the
-	// base row still has to be brought to the merged layout by the resolver
+	// when a layer adds, removes (renames) or moves columns, a row whose bytes equal the
+	// base row still has to be read under that layer's layout by the resolver
 	layoutChanged := false
-	for i := range colDiff.Added {
-		if len(colDiff.Added[i]) > 0 || len(colDiff.Removed[i]) > 0 {
+	for i := range colDiff.OtherIdx {
+		if layoutDiffers(colDiff, i) {
 			layoutChanged = true
 		}
 	}
